@@ -110,6 +110,8 @@ func c18Backend(b *Batch, idx int) {
 	b.R.Eval()
 	concurrent := rng.Intn(2) == 0
 	// Loads: issue them in a controlled way (known state) below instead of inside doOp
+	presentAll := map[string]bool{}
+	var pmu sync.Mutex
 	phases := 1 + rng.Intn(4)
 	for ph := 0; ph < phases; ph++ {
 		if concurrent {
@@ -118,17 +120,33 @@ func c18Backend(b *Batch, idx int) {
 			for w := 0; w < workers; w++ {
 				wg.Add(1)
 				r := rand.New(rand.NewSource(rng.Int63()))
+				// every goroutine owns its keys, so its presence model is exact while the instance is shared
+				own := make([][]byte, 3)
+				for i := range own {
+					own[i] = []byte(fmt.Sprintf("w%d-%d", w, i))
+				}
+				pres := map[string]bool{}
+				pmu.Lock()
+				for _, k := range own {
+					pres[string(k)] = presentAll[string(k)]
+				}
+				pmu.Unlock()
 				go func() {
 					defer wg.Done()
 					for i := 0; i < 50; i++ {
-						c18Op(be, keys, r, &hit, &miss, &expired, &write, &del, nil)
+						c18Op(be, own, pres, r, &hit, &miss, &expired, &write, &del, nil)
 					}
+					pmu.Lock()
+					for k, v := range pres {
+						presentAll[k] = v
+					}
+					pmu.Unlock()
 				}()
 			}
 			wg.Wait()
 		} else {
 			for i := 0; i < 20+rng.Intn(60); i++ {
-				c18Op(be, keys, rng, &hit, &miss, &expired, &write, &del, &ops)
+				c18Op(be, keys, presentAll, rng, &hit, &miss, &expired, &write, &del, &ops)
 			}
 		}
 		// barrier: batch operations with exact "entries touched"
@@ -144,6 +162,9 @@ func c18Backend(b *Batch, idx int) {
 			n := be.Len()
 			be.DeleteAll(bg)
 			del += int64(n)
+			for k := range presentAll {
+				presentAll[k] = false
+			}
 			b.R.Count("deleteall.entries", int64(n))
 			ops = append(ops, fmt.Sprintf("DeleteAll(%d)", n))
 		}
@@ -167,7 +188,7 @@ func c18Backend(b *Batch, idx int) {
 	}
 }
 
-func c18Op(be Backend, keys [][]byte, r *rand.Rand, hit, miss, expired, write, del *int64, ops *[]string) {
+func c18Op(be Backend, keys [][]byte, present map[string]bool, r *rand.Rand, hit, miss, expired, write, del *int64, ops *[]string) {
 	k := keys[r.Intn(len(keys))]
 	rec := func(s string) {
 		if ops != nil {
@@ -203,17 +224,20 @@ func c18Op(be Backend, keys [][]byte, r *rand.Rand, hit, miss, expired, write, d
 		}
 		be.Write(ctx, k, "v")
 		atomic.AddInt64(write, 1)
+		present[string(k)] = true
 		rec("Write")
 	case p < 80:
 		err := be.Delete(bg, k)
-		if err == nil {
+		if present[string(k)] { // ground truth: an entry was actually removed (keys are owned by one goroutine)
 			atomic.AddInt64(del, 1)
 		}
+		present[string(k)] = false
 		rec("Delete->" + errClass(err))
 	case p < 90:
 		if be.HasLoadStore() {
 			be.Store(k, "s")
 			atomic.AddInt64(write, 1)
+			present[string(k)] = true
 			rec("Store")
 		}
 	default:
